@@ -89,6 +89,25 @@ def r3_lookup(run, F):
                             ok = True
         run.ob("R3-SEARCH-ALL-SCOPES", name, ok, F.where(b),
                "%s must search every scope of the label stack for a label of the same name" % name)
+        # ... and the loop goes on to the next scope whenever the name was not found in this one (MIR: from the None edge
+        # of the switch on find()'s result the loop's next() is reached again; the Some edge may leave the loop)
+        cfg = mirq.CFG(b)
+        nexts = [u for u, t in cfg.calls() if (mirq.call_target(t) or "").endswith("Iterator>::next")]
+        finds = [u for u, t in cfg.calls() if (mirq.call_target(t) or "").endswith("Iterator>::find")]
+        cont = None
+        detail = "next() calls %s, find() calls %s" % (nexts, finds)
+        if len(nexts) >= 1 and len(finds) == 1:
+            sw = mirq.enum_switch_after_call(cfg, finds[0])
+            if sw is not None:
+                targets, otherwise = sw
+                none_bb = targets.get(0, otherwise)
+                reach = cfg.reachable_from([none_bb])
+                header = [u for u in nexts if finds[0] in cfg.reachable_from([u])]
+                cont = bool(header) and any(h in reach or h == none_bb for h in header)
+                detail = "find() in bb%s, None edge -> bb%s, loop header %s reachable again: %s" % (finds[0], none_bb, header, cont)
+        run.ob("R3-SEARCH-ALL-SCOPES", name + " continues", bool(cont), F.where(b),
+               "%s must go on to the enclosing scopes when the name is not in the current one (a break/return on the not-found path "
+               "limits the search to one scope): %s" % (name, detail))
     cons = [hirq.short(p) for p, _ in hirq.constructs(ul["hir"])]
     tail = hirq.unwrap_trivial(ul["hir"].get("e", {}))
     tc = [hirq.short(p) for p, _ in hirq.constructs(tail)] if tail else []
